@@ -202,3 +202,32 @@ def _tags(repo, out, notes):
     out.append(",\n".join("  (%s, %s, %s)" % (lean_chars(a), lean_chars(b), lean_chars(c_)) for a, b, c_ in tags))
     out.append("]")
     return ["ReqVerif.Model.Tags"]
+
+
+def _set_const(repo, relpath, name):
+    with open(os.path.join(repo, relpath)) as f:
+        tree = ast.parse(f.read())
+    for node in tree.body:
+        if isinstance(node, ast.Assign) and any(isinstance(t, ast.Name) and t.id == name for t in node.targets):
+            return sorted(ast.literal_eval(node.value))
+    raise ValueError("%s not found in %s" % (name, relpath))
+
+
+@section
+def _source_walk(repo, out, notes):
+    special = _set_const(repo, "req_compile/repos/source.py", "SPECIAL_DIRS")
+    markers = _set_const(repo, "req_compile/repos/source.py", "MARKER_FILES")
+    with open(os.path.join(repo, "req_compile/repos/source.py")) as f:
+        tree = ast.parse(f.read())
+    fn = _func(tree, "_find_all_source_dirs")
+    project_files = None
+    for node in ast.walk(fn):
+        if isinstance(node, ast.Compare) and isinstance(node.left, ast.Name) and node.left.id == "filename" \
+                and isinstance(node.ops[0], ast.In) and isinstance(node.comparators[0], ast.Tuple):
+            project_files = [e.value for e in node.comparators[0].elts]
+    if project_files is None:
+        raise ValueError("project-file tuple not found in _find_all_source_dirs")
+    out.append("/-- regenerated from req_compile/repos/source.py -/")
+    out.append("def specialDirs : List String := %s" % lean_list(lean_str(x) for x in special))
+    out.append("def markerFiles : List String := %s" % lean_list(lean_str(x) for x in markers))
+    out.append("def projectFiles : List String := %s" % lean_list(lean_str(x) for x in project_files))
